@@ -10,6 +10,8 @@
 (define-fun spec.atLimit ((v (_ BitVec 64)) (l (_ BitVec 64))) Bool
   (and (not (= l #x0000000000000000)) (bvuge v l)))
 (define-fun spec.addNoWrap ((a (_ BitVec 64)) (b (_ BitVec 64))) Bool (bvuge (bvadd a b) a))
+(define-fun spec.satAdd ((a (_ BitVec 64)) (b (_ BitVec 64))) (_ BitVec 64)
+  (ite (bvult (bvadd a b) a) #xffffffffffffffff (bvadd a b)))
 (define-fun spec.mulNoWrap ((a (_ BitVec 64)) (b (_ BitVec 64))) Bool
   (= ((_ extract 127 64) (bvmul ((_ zero_extend 64) a) ((_ zero_extend 64) b))) #x0000000000000000))
 
